@@ -13,6 +13,7 @@ import (
 
 	"github.com/tigerwill90/fox"
 
+	"verifharness/fx"
 	"verifharness/gen"
 	"verifharness/mc"
 	"verifharness/ref"
@@ -167,6 +168,33 @@ func measure(f *fox.Router, reqs []served, w *nullWriter) float64 {
 	return min
 }
 
+// measureLookup is measure for the manual routing entry point: Router.Lookup followed by Close of the
+// returned context, on every served request.
+func measureLookup(f *fox.Router, reqs []served, fw fox.ResponseWriter) float64 {
+	cycle := func() {
+		for i := range reqs {
+			if _, cc, _ := f.Lookup(fw, reqs[i].req); cc != nil {
+				cc.Close()
+			}
+		}
+	}
+	cycle()
+	cycle()
+	a := testing.AllocsPerRun(10, cycle)
+	if a == 0 {
+		return 0
+	}
+	min := a
+	for i := 0; i < 5; i++ {
+		if b := testing.AllocsPerRun(10, cycle); b < min {
+			min = b
+		}
+	}
+	return min
+}
+
+var lookupWriter = fx.WrapRW(fx.NewRW())
+
 func run(c *mc.Ctx, r *mc.Result) {
 	runtime.GOMAXPROCS(1)
 	debug.SetGCPercent(-1)
@@ -225,6 +253,10 @@ func run(c *mc.Ctx, r *mc.Result) {
 				}
 				r.Violate("alloc", "allocates-interleaved", fmt.Sprintf("a cycle over the %d served requests of routes %v allocates %.1f objects per cycle in steady state although each request alone allocates nothing", len(reqs), set, a), Case{Set: set, Hosts: pd.hosts, Paths: pd.paths})
 			}
+			// the same requests routed through Router.Lookup + Close
+			if a := measureLookup(f, reqs, lookupWriter); a != 0 {
+				r.Violate("alloc", "allocates-lookup", fmt.Sprintf("a cycle of Router.Lookup + Close over the %d served requests of routes %v allocates %.1f objects per cycle in steady state", len(reqs), set, a), Case{Set: set, Hosts: pd.hosts, Paths: pd.paths})
+			}
 			if i < 2 {
 				r.Sample(map[string]any{"pool": pd.name, "set": set, "served_requests": len(reqs)})
 			}
@@ -236,7 +268,7 @@ func init() {
 	mc.Register(&mc.Check{
 		ID:    "C16",
 		Level: "exploration",
-		Rule:  "every subset (size<=K) of (pattern, ignore-slash) pairs from generated pools (flat, deep backtracking, many parameters, hostnames, >50 children) on the production build; every request the reference says is served (directly or by ignoring a trailing slash) is served in an interleaved cycle measured with testing.AllocsPerRun after warm-up (GC off, GOMAXPROCS 1, allocation-free handler and writer); evaluations = served requests measured; non-trivial = sets with >=2 served requests",
+		Rule:  "every subset (size<=K) of (pattern, ignore-slash) pairs from generated pools (flat, deep backtracking, many parameters, hostnames, >50 children) on the production build; every request the reference says is served (directly or by ignoring a trailing slash) is served in an interleaved cycle (through ServeHTTP, and through Router.Lookup + Close) measured with testing.AllocsPerRun after warm-up (GC off, GOMAXPROCS 1, allocation-free handler and writer); evaluations = served requests measured; non-trivial = sets with >=2 served requests",
 		Assumptions: []string{
 			"an allocation is what the Go runtime counts (runtime.MemStats.Mallocs); a non-zero reading is re-measured 5 times and the minimum is reported",
 			"built without the verif tag and without the sync overlay: production code is measured",
@@ -254,6 +286,9 @@ func init() {
 			}
 			if a := measure(f, reqs, &nullWriter{h: http.Header{}}); a != 0 {
 				return fmt.Sprintf("%.1f allocations per cycle over %d served requests of routes %v", a, len(reqs), cs.Set)
+			}
+			if a := measureLookup(f, reqs, lookupWriter); a != 0 {
+				return fmt.Sprintf("%.1f allocations per cycle of Router.Lookup + Close over %d served requests of routes %v", a, len(reqs), cs.Set)
 			}
 			return ""
 		}}},
